@@ -133,6 +133,9 @@ def run(tier, seed, replay_path=None):
     items = [(f, end, fault) for f in firsts for end, fault in
              (('eof', 'partial'), ('error', 'partial'), ('silent', 'partial'), ('eof', 'corrupt'), ('eof', None))]
     ck.fork_map(items, lambda c, it: explore_item(c, it, m, tier))
+    # "the server keeps serving": whatever happens to one connection around its acceptance, the accept loop goes on
+    from . import runtime_checks
+    runtime_checks.run_accept_loop(ck, tier)
     for need in ('fault partial / peer eof', 'fault partial / peer error', 'fault partial / peer silent', 'fault corrupt / peer eof',
                  'cut inside the header', 'cut inside the body', 'cut exactly at a request boundary'):
         ck.covers.setdefault(need, False)
